@@ -379,7 +379,8 @@ func (c *e2eCtx) trackAndJudge(s *scenario, decoys bool, r *rand.Rand) {
 }
 
 func (c *e2eCtx) judgeC05(s *scenario, in *oracle.Instrumentation, rp func(map[string]any) map[string]any) {
-	c.judgeC05As("C05", s, in, rp)
+	// the id numbering and the component tables are also what the generated runtime reports from (C07)
+	c.judgeC05As("C05,C07", s, in, rp)
 }
 
 // judgeC05As: the numbering / table / service-start oracle, reported under the given property
